@@ -103,6 +103,24 @@ def scan_call_sites(repo=None):
                         arg = kw.value
                 if arg is None and len(n.args) > pos:
                     arg = n.args[pos]
+                # a local alias (confirm = not args.no_warnings; f(..., confirm_overwrite=confirm)) is looked through
+                hops = 0
+                while isinstance(arg, ast.Name) and hops < 3:
+                    cur_ = n
+                    fn_ = None
+                    while id(cur_) in parents:
+                        cur_ = parents[id(cur_)]
+                        if isinstance(cur_, (ast.FunctionDef, ast.AsyncFunctionDef)):
+                            fn_ = cur_
+                            break
+                    if fn_ is None:
+                        break
+                    defs = [a_.value for a_ in ast.walk(fn_) if isinstance(a_, ast.Assign) and len(a_.targets) == 1 and
+                            isinstance(a_.targets[0], ast.Name) and a_.targets[0].id == arg.id]
+                    if len(defs) != 1:
+                        break
+                    arg = defs[0]
+                    hops += 1
                 sites.append({"file": rel, "line": n.lineno, "callee": name, "arg": arg, "default": dflt})
             if name == "open" and isinstance(f, ast.Name):
                 mode = n.args[1] if len(n.args) > 1 else next((kw.value for kw in n.keywords if kw.arg == "mode"), None)
